@@ -6,10 +6,13 @@ Driver for the state-space family: a postfix stack program per line.
   bdalg  : series k | parallel k | appendn k   (the k topmost operands, in call order; the folds
            of `Model/C02Bdalg.lean`) | negate | tosys (`_convert_to_statespace`, the first
            operand of the function form of feedback)
+  option : rus   (the final processing of the `StateSpace` constructor with the option
+           `remove_useless_states` on, applied to the topmost operand: `C02Rus.rusOp true`)
 -/
 import CtrlVerif.Driver.Mat
 import CtrlVerif.Model.SSDyn
 import CtrlVerif.Model.C02Bdalg
+import CtrlVerif.Model.C02Rus
 
 namespace CtrlVerif.Driver.SS
 
@@ -112,6 +115,10 @@ partial def run (stack : List (SOperand Q)) (mb : Nat := 0) : P String := do
     | "tosys" =>
       match stack with
       | x :: rest => run (.sys (DSS.toSys x) :: rest) mb
+      | _ => throw "stack"
+    | "rus" =>
+      match stack with
+      | x :: rest => run (forceOp (C02Rus.rusOp true x) :: rest) mb
       | _ => throw "stack"
     | "series" | "parallel" | "appendn" =>
       let k ← pNat
